@@ -125,6 +125,9 @@ func (e *Engine) RunHarness(spec *HarnessSpec, workers int, deadline time.Time) 
 func (ex *Exec) runPath(spec *HarnessSpec, prefix []Decision) {
 	ex.resetPath(prefix)
 	ex.preemptBound = spec.Preempt
+	ex.noIfConv = spec.Opts["ifconv"] == "off"
+	ex.specMode = false
+	ex.inModel = 0
 	ex.autoTime = true
 	ex.symAlloc = false
 	ex.mapPerm = false
